@@ -53,8 +53,6 @@ func checkC05(c *Ctx) {
 
 // ---------------------------------------------------------------- R3 tables
 
-func pk(c *Ctx, short string) *pkgT { return c.P.Pkg(short) }
-
 // ---------------------------------------------------------------- R1 writers
 
 // wnode is a node of the extracted format tree.
